@@ -22,6 +22,8 @@ THEOREMS = [
     'Tbox.C17.C17_repeat_zero_means_forever', 'Tbox.C17.C17_sequence_header_literal_differs',
     # whole-tree theorem by simulation through the queue (serial composites, sync + delayed leaves)
     'Tbox.C17.C17_result_matches_doc_serial', 'Tbox.C17.gen', 'Tbox.C17.good_all', 'Tbox.C17.runU_embed', 'Tbox.C17.step_embed',
+    # liveness of that class: progress measure `cost`
+    'Tbox.C17.C17_finishes_exactly_once', 'Tbox.C17.C17_eval_total_serial', 'Tbox.C17.gen_live', 'Tbox.C17.live_all',
     # ActionExecutor
     'Tbox.C17.C17_exec_one_at_a_time', 'Tbox.C17.C17_exec_heads_only', 'Tbox.C17.Exec.sched_inv', 'Tbox.C17.Exec.xstep_inv',
     # the inductive steps themselves
@@ -211,9 +213,6 @@ def gen(rng, tier):
                     for b in pair:
                         yield gen_placement(tree, {i: a, j: b}, L)
     n = 1500 if quick else 12000
-    # whole-tree theorem by simulation through the queue (serial composites, sync + delayed leaves)
-    'Tbox.C17.C17_result_matches_doc_serial', 'Tbox.C17.gen', 'Tbox.C17.good_all', 'Tbox.C17.runU_embed', 'Tbox.C17.step_embed',
-    # ActionExecutor
     yield ['xcancelcur', 'xapp D 3', 'xapp Q 1', 'xapp D 1', 'tree Fs', 'do start', 'xemit 0 s', 'xcancel 0', 'xpass', 'xapp D 1']
     yield ['xapp D 2', 'xcancelcur', 'xapp D 0', 'xemit 2 s', 'xpass']
     yield ['xapp D 1', 'xcancel 1', 'xcancelcur', 'xapp D 1', 'xemit 2 f']
@@ -292,7 +291,7 @@ LEVEL_TEXT = ('Lean 4 theorems over an executable model of the action framework.
               'evaluates WF and the documented result (reference evaluator, all composites) on every visited state')
 LEVEL_NOTE = ('whole-tree "root result = documented meaning, exactly one finish notification, leaves called in the documented order" is PROVED through '
               'the deferred queue for trees of Sequence/IfElse/IfThen/Switch/Wrapper/Composite over Function and Sleep leaves (C17_result_matches_doc_serial, '
-              'safety for every pass/clock sequence); OPEN: liveness of that class, Loop/LoopIf/Repeat, Parallel (compared with the evaluator on '
+              'safety for every pass/clock sequence; C17_finishes_exactly_once, liveness: after cost(t)+1 big clock steps / passes in any fair schedule the trace IS the complete visit order + one finish); OPEN: Loop/LoopIf/Repeat, Parallel (compared with the evaluator on '
               'every control-free generated run for all composites); trace equivalence '
               'of a reset tree with a fresh one (Clean + WF after reset are proved); ActionExecutor: highest-priority-first and callbacks-once monitored, not proved; trusted: Lean kernel, '
               'hand-written model, harness, generator coverage (measured)')
